@@ -50,6 +50,31 @@ def generic_run(prop, propfile, tier, seed, t0, search, rule, what, corr_streams
     print("%s ok: %d theorems; search %d cases; correspondence %d cases" % (prop, proof["obligations"], total, evals))
 
 
+def range_metamorphic(seed):
+    """C03's set-semantics clause ("a range written high:low denotes the same messages as low:high") and C12 on whatever
+    the grammar has today: in every response read off the translated grammar that the implementation accepts, each
+    `a:b` outside a quoted string is rewritten to `2:4` and to `4:2`; the two must get the same answer, value included.
+    Returns (pairs tried, description of a failing pair or None)."""
+    import re
+    pairs = []
+    for h in C.grammar_sentences():
+        b = bytes.fromhex(h)
+        for m in re.finditer(rb"(?<![0-9:.])([0-9]+):([0-9]+)(?![0-9:.])", b):
+            if b[:m.start()].replace(b'\\\\', b'').replace(b'\\"', b'').count(b'"') % 2 == 1:
+                continue
+            pairs.append(((b[:m.start()] + b"2:4" + b[m.end():]).hex(), (b[:m.start()] + b"4:2" + b[m.end():]).hex()))
+    if not pairs:
+        return 0, None
+    flat = [x for p in pairs for x in p]
+    rows = C.parse_stream("corpus", seed, 0, stdin="\n".join(flat) + "\n")
+    for k in range(0, len(rows) - 1, 2):
+        (h1, r1, _), (h2, r2, _) = rows[k], rows[k + 1]
+        if r1 != r2 and (r1.startswith("OK") or r2.startswith("OK")):
+            return len(pairs), ("a range written high:low does not denote the same messages as low:high:\ninput %s\nparsed %s\ninput %s\nparsed %s"
+                                % (C.show_input(h1), r1[:400], C.show_input(h2), r2[:400]))
+    return len(pairs), None
+
+
 def on_violation(prop, propfile):
     def f(tier, seed, t0, v):
         C.write_evidence(prop, tier, seed, t0, obligations=1, discharged=0, checker_cmd="make -C coq " + propfile.replace(".v", ".vo"),
